@@ -41,6 +41,8 @@ def _slug(s):
 def _setup_process():
     os.environ["TZ"] = "UTC"
     time.tzset()
+    if hasattr(sys, "set_int_max_str_digits"):
+        sys.set_int_max_str_digits(0)      # z3 models may contain rationals with thousands of digits
     if REPO not in sys.path:
         sys.path.insert(0, REPO)
     if VERIF not in sys.path:
